@@ -51,6 +51,8 @@ def run(ck):
     cases, lines, plan = [], [], []
     for _ in range(60 if thorough else 15):
         p, T, rho, M, g = rng.uniform(0.01, 0.995), rng.uniform(60, 320), rng.uniform(0.3, 2), rng.uniform(2, 150), rng.uniform(1, 40)
+        if rng.random() < 0.35:
+            p = 1 - logu(rng, 1e-7, 1e-2) if rng.random() < 0.6 else logu(rng, 1e-8, 1e-2)      # both ends of (0, 1)
         for mg, f in FACTOR.items():
             py = mk.kelvin_radius(p, mg, T, rho, M, g)
             cases.append(("kelvin_radius", {"pressure": p, "temperature": T, "adsorbate_surface_tension": g, "adsorbate_molar_density": M / rho, "geometry_factor": f}, py))
@@ -121,7 +123,7 @@ def run(ck):
         except Exception:
             continue
         n = rng.choice([6, 10, 20, 40, 80])
-        ps = sorted({rng.uniform(0.02, 0.995) for _ in range(n)})
+        ps = sorted({rng.uniform(0.02, 0.995) for _ in range(n)} | ({1 - logu(rng, 1e-6, 4e-3)} if rng.random() < 0.3 else set()))
         n = len(ps)
         step_case = rng.random() < 0.25
         if step_case:
